@@ -88,16 +88,24 @@ func (r *Result) CalculateWinnerRewards(potIdx int, l *LevelInfo) {
 	based := l.Total / int64(len(winners))
 	remainder := l.Total % int64(len(winners))
 
+	// Odd chips are handed out in turn across the levels of a pot, continuing where the
+	// previous level stopped, so that tied winners of one pot never differ by more than one chip
+	pot := r.Pots[potIdx]
+	count := int64(len(winners))
+	start := pot.oddChips % count
+
 	for i, wIdx := range winners {
 
 		reward := based
 
-		if int64(i) < remainder {
+		if (int64(i)-start+count)%count < remainder {
 			reward += 1
 		}
 
 		r.Update(potIdx, wIdx, l.Wager, reward-l.Wager)
 	}
+
+	pot.oddChips += remainder
 }
 
 func (r *Result) CalculateLoserResults(potIdx int, l *LevelInfo) {
